@@ -1,0 +1,24 @@
+//go:build verif
+
+// Verification hooks (build tag "verif"): perturbation points used by the
+// external runtime monitors under /verif. Only adds code; see verif_off.go.
+package muxer
+
+import "sync/atomic"
+
+var verifPoint atomic.Pointer[func(string, *Muxer)]
+
+// VerifSetPoint installs (or with nil removes) the perturbation callback.
+func VerifSetPoint(f func(string, *Muxer)) {
+	if f == nil {
+		verifPoint.Store(nil)
+		return
+	}
+	verifPoint.Store(&f)
+}
+
+func (m *Muxer) verifPt(name string) {
+	if f := verifPoint.Load(); f != nil {
+		(*f)(name, m)
+	}
+}
